@@ -117,6 +117,23 @@ int main() {
     if (!(coords[1] - coords[0] >= 10.0 - 1e-4) || coords[0] != vs[0]->finalPosition || coords[1] != vs[1]->finalPosition) {
       printf("project(): coordinates (%g, %g) handed back for solver result (%g, %g) under v0 + 10 <= v1\n", coords[0], coords[1], vs[0]->finalPosition, vs[1]->finalPosition); bad++; }
   }
+  {
+    // makeFeasible(): a non-overlap alternative that contradicts an earlier user constraint which is currently slack -- VPSC then flags the
+    // EARLIER constraint; the alternative must be rolled back.  Several placements of the second node relative to the first.
+    for (int k = 0; k < 4; ++k) {
+      const double W = 100, H = 60; double cx[3] = { 60.0 - 10 * k, 0, 0 }, cy[3] = { 0, 0, 1000 };
+      vpsc::Rectangles rs; for (int i = 0; i < 3; ++i) rs.push_back(new vpsc::Rectangle(cx[i] - W / 2, cx[i] + W / 2, cy[i] - H / 2, cy[i] + H / 2));
+      std::vector<cola::Edge> es; es.push_back(cola::Edge(0, 1)); es.push_back(cola::Edge(0, 2));
+      CompoundConstraints ccs; ccs.push_back(new SeparationConstraint(vpsc::XDIM, 0, 1, 10, false)); ccs.push_back(new SeparationConstraint(vpsc::XDIM, 0, 2, 100, false));
+      ConstrainedFDLayout alg(rs, es, 100); alg.setConstraints(ccs); alg.setAvoidNodeOverlaps(true);
+      UnsatisfiableConstraintInfos ux, uy; alg.setUnsatisfiableConstraintInfo(&ux, &uy);
+      alg.makeFeasible();
+      double x0 = rs[0]->getCentreX(), x1 = rs[1]->getCentreX(), x2 = rs[2]->getCentreX();
+      if (ux.empty() && uy.empty() && (!(x0 + 10 <= x1 + 1e-4) || !(x0 + 100 <= x2 + 1e-4))) {
+        printf("makeFeasible (start x0=%g): x = (%g, %g, %g) violates x0+10<=x1 or x0+100<=x2 and nothing is reported unsatisfiable\n", cx[0], x0, x1, x2); bad++; }
+      alg.freeAssociatedObjects();
+    }
+  }
   if (bad) { printf("REPRODUCED: %d generated constraint(s) / projected coordinate(s) differ from the user constraint\n", bad); return 1; }
   printf("not reproduced\n"); return 0;
 }
@@ -357,6 +374,96 @@ def jobs(tier):
                                                   "__CPROVER_same_object(c, {V}->d) && verif_visited <= {V}->n && (char *)c == (char *){V}->d + 8 * verif_visited".replace("{V}", vec_cs),
                                                   "c, verif_visited, verif_last_slot", "%s->n - verif_visited" % vec_cs, {"c": "1::1::c"})]),
                   domain="every constraint list of up to 10^6 entries", expect=[r'w_unsat_shell\.postcondition', r'loop_invariant_base', r'loop_invariant_step', r'loop_decreases']))
+    # ---------------- the majorization path (gradient_projection.cpp): runSolver's copy-back after satisfy(), destroyVPSC's report of flagged constraints
+    GP = "libcola/gradient_projection.cpp"
+    rsv = slice_func(GP, r'^bool GradientProjection::runSolver\(valarray<double> & result\)', "GradientProjection::runSolver")
+    rs_frag = fragment_between(rsv, r'activeConstraints = solver->satisfy\(\);', r'break;\s*case Inner:', "GradientProjection::runSolver [case Off: satisfy and copy back]")
+    _, rs_loop = fragment_loop(rs_frag, r'for \(unsigned i=0;i<vars\.size\(\);i\+\+\)', "GradientProjection::runSolver [copy-back loop body]")
+    if rs_frag.text.count(rs_loop.text) != 1:
+        raise Undecided("C07: runSolver: loop body not found exactly once")
+    standin2 = ("class IncSolver { public: char _opaque[256]; bool satisfy() { return w_IncSolver_solve((void *)this); } };\n")
+    vp_gp = (prelude("vpsc.h").replace("@SOLVER_CLASSES@", standin2).replace("@SLICE:Variable::position@", "").replace("@SLICE:Variable::unscaledPosition@", "")
+             .replace("@SLICE:Constraint::slack@", "").replace("@BLOCK_EXTRA@", ""))
+    gp_head = (base + "#include <valarray>\nusing std::valarray;\n"
+               'extern "C" { bool w_IncSolver_solve(void *s); void w_copy_visit(unsigned i); void w_visit(void *, void *); void *malloc(size_t); '
+               'void *verif_g_vars, *verif_g_cs, *verif_g_coords, *verif_g_solver, *verif_g_out; }\n')
+    rs_shell = ("namespace vpsc {\nvoid verif_runSolver_off()\n{ bool activeConstraints = false; IncSolver *solver = (IncSolver *)verif_g_solver; "
+                "Variables& vars = *(Variables *)verif_g_vars; valarray<double>& result = *(valarray<double> *)verif_g_coords;\n" +
+                rs_frag.text.replace(rs_loop.text, "{ w_copy_visit(i); }") + "\n}\n}\n"
+                'extern "C" void w_runSolver_off(void *solver, void *vars, void *result) { verif_g_solver = solver; verif_g_vars = vars; verif_g_coords = result; vpsc::verif_runSolver_off(); }\n')
+    VARSV = "((struct{void*d;unsigned long n;unsigned long cap;}__attribute__((packed))*)verif_g_vars)"
+    js.append(Job("runSolver_shell", "U", spec, "h_runSolver", enforce="w_runSolver_off", replace=["w_IncSolver_solve", "w_copy_visit"], cxx=gp_head + vp_gp + rs_shell,
+                  defines=["JOB_runSolver"], slices=[rsv, rs_frag, rs_loop], flags=["--object-bits", "12", "--sat-solver", "cadical"], backend="sat:cadical",
+                  loops=loops_file([loop_contract("vpsc::verif_runSolver_off()", 0, "i <= %s->n && verif_visited == i" % VARSV, "i, verif_visited", "%s->n - i" % VARSV, {"i": "1::1::i"})]),
+                  domain="every number of variables up to 2^32-1; IncSolver::satisfy behind a contract",
+                  expect=[r'w_runSolver_off\.postcondition', r'loop_invariant_base', r'loop_invariant_step', r'loop_decreases', r'precondition']))
+    rs_body = ("namespace vpsc {\nstatic void verif_runSolver_body(Variables& vars, valarray<double>& result, unsigned i)\n" + rs_loop.text + "\n}\n"
+               'extern "C" void w_project_body(void *vs, void *coords, unsigned i) { vpsc::verif_runSolver_body(*(vpsc::Variables *)vs, *(valarray<double> *)coords, i); }\n')
+    js.append(Job("runSolver_body", "U", spec, "h_project_body", enforce="w_project_body", cxx=gp_head + vp_gp + rs_body, defines=["JOB_project_body"], slices=[rsv, rs_loop],
+                  flags=["--object-bits", "12", "--sat-solver", "cadical"], backend="sat:cadical",
+                  domain="one arbitrary index, every final position (all doubles)", expect=[r'w_project_body\.postcondition']))
+    dv = slice_func(GP, r'^void GradientProjection::destroyVPSC\(IncSolver \*vpsc\)', "GradientProjection::destroyVPSC")
+    dv_frag = fragment_between(dv, r'if\(unsatisfiableConstraints\) \{\s*unsatisfiableConstraints->clear\(\);', r'if\(clusterHierarchy\) \{', "GradientProjection::destroyVPSC [report of unsatisfiable constraints]")
+    _, dv_loop = fragment_loop(dv_frag, r'for\(Constraints::iterator i=cs\.begin\(\);i!=cs\.end\(\);i\+\+\)', "GradientProjection::destroyVPSC [report loop body]")
+    if dv_frag.text.count(dv_loop.text) != 1:
+        raise Undecided("C07: destroyVPSC: loop body not found exactly once")
+    gp_cola = vpsc_part + pre({})
+    dv_shell = ("namespace vpsc {\nusing cola::UnsatisfiableConstraintInfo; using cola::UnsatisfiableConstraintInfos;\nvoid verif_destroy_report()\n{ Constraints& cs = *(Constraints *)verif_g_cs; "
+                "UnsatisfiableConstraintInfos *unsatisfiableConstraints = (UnsatisfiableConstraintInfos *)verif_g_out;\n" +
+                dv_frag.text.replace(dv_loop.text, "{ w_visit((void *)0, (void *)i); }") + "\n}\n}\n"
+                'extern "C" void w_unsat_shell(void *cs, void *out) { verif_g_cs = cs; verif_g_out = out; vpsc::verif_destroy_report(); }\n')
+    js.append(Job("destroyVPSC_report_shell", "U", spec, "h_unsat_shell", cxx=gp_head + gp_cola + dv_shell, enforce="w_unsat_shell", replace=["w_visit"],
+                  defines=["JOB_unsat_shell", "UNSAT_GP"], slices=[dv, dv_frag, dv_loop], flags=["--object-bits", "12", "--sat-solver", "cadical"], backend="sat:cadical",
+                  loops=loops_file([loop_contract("vpsc::verif_destroy_report()", 0,
+                                                  "__CPROVER_same_object(i, {V}->d) && verif_visited <= {V}->n && (char *)i == (char *){V}->d + 8 * verif_visited".replace("{V}", vec_cs),
+                                                  "i, verif_visited, verif_last_slot", "%s->n - verif_visited" % vec_cs, {"i": "1::1::1::i"})]),
+                  domain="every constraint list of up to 10^6 entries; with and without a report list",
+                  expect=[r'w_unsat_shell\.postcondition', r'loop_invariant_base', r'loop_invariant_step', r'loop_decreases']))
+    dv_body_text = subst(dv_loop, [(r'new UnsatisfiableConstraintInfo\(', 'verif_new_UInfo(', 1)])
+    dv_body = ("namespace cola {\n" + uctor.text + "\n}\n" + NEWU + "namespace vpsc {\nusing cola::UnsatisfiableConstraintInfo; using cola::UnsatisfiableConstraintInfos;\n"
+               "static void verif_destroy_body(Constraints::iterator i, UnsatisfiableConstraintInfos *unsatisfiableConstraints)\n" + dv_body_text + "\n}\n"
+               'extern "C" void w_unsat_body(void *slot, void *out) { vpsc::verif_destroy_body((vpsc::Constraint **)slot, (cola::UnsatisfiableConstraintInfos *)out); }\n')
+    js.append(Job("destroyVPSC_report_body", "U", spec, "h_unsat_body", cxx=gp_head + gp_cola + dv_body, enforce="w_unsat_body", defines=["JOB_unsat_body"],
+                  slices=[dv, dv_loop, uctor], flags=["--object-bits", "12", "--sat-solver", "cadical"], backend="sat:cadical",
+                  domain="one arbitrary constraint, flagged or not, every gap (all doubles), variable ids >= 0", expect=[r'w_unsat_body\.postcondition']))
+    # ---------------- makeFeasible: after each tentative alternative, a flag on ANY constraint of the valid set means "roll this alternative back"
+    mf = slice_func(CF_, r'^void ConstrainedFDLayout::makeFeasible\(double xBorder, double yBorder\)', "ConstrainedFDLayout::makeFeasible")
+    _, mf_while = fragment_loop(mf, r'while \(!alternatives\.empty\(\)\)', "makeFeasible [body of the loop over alternatives]")
+    scan = items_between(mf_while, r'^catch \(char \*str\)', r'^if \(!subConstraintSatisfiable\)',
+                         "makeFeasible [between the solve attempt and the roll-back decision: scan of the valid set for unsatisfiable flags]")
+    scan_cxx = (base + vpsc_part + "namespace cola {\n// the fragment's free variables with the types they have in makeFeasible\n"
+                "static bool verif_flag_scan(vpsc::Constraints valid[], vpsc::Dim& dim, bool subConstraintSatisfiable)\n{\n" + scan.text + "\n    return subConstraintSatisfiable;\n}\n}\n"
+                'extern "C" int w_flag_scan(void *valid, int *dim, int sat) { return cola::verif_flag_scan((vpsc::Constraints *)valid, *(vpsc::Dim *)dim, sat != 0) ? 1 : 0; }\n')
+    js.append(Job("makeFeasible_flag_scan", "B", spec, "h_flag_scan", cxx=scan_cxx, defines=["JOB_flag_scan"], slices=[mf, mf_while, scan], unwind=5,
+                  flags=["--sat-solver", "cadical"], backend="sat:cadical", replay=replay_c07,
+                  bound="valid sets of 1 to 4 constraints in the dimension at hand (loops unwound 5 times with unwinding assertions); every combination of flags",
+                  domain="both dimensions, every combination of unsatisfiable flags, with and without an earlier failure (exception path)",
+                  expect=[r'h_flag_scan\.assertion'],
+                  note="anchored on the neighbouring statements (the catch block before, the roll-back `if` after), so a rewritten scan is still extracted"))
+    # the same scan for ANY size of the valid set: loop contract with a ghost constraint index.  "Element i of the valid set is object i of a pool of
+    # distinct live constraints" is a quantified precondition; it is instantiated at each element access through the stub vector's element hook.
+    # This job needs the scan to still be one loop; the bounded job above does not.
+    scan0_cxx = ("#define VERIF_VECTOR_ELEMENT_HOOK\n" + base + 'extern "C" { void *verif_g_valid; int verif_g_dim; int verif_g_sat; void *verif_pool; }\n' + vpsc_part +
+                 "// instantiation of: for all i, valid[dim][i] == &pool[i]\n"
+                 'extern "C" void verif_vector_element_hook(const void *vec, size_t i, const void *slot) {\n'
+                 "  if (vec == (const void *)((vpsc::Constraints *)verif_g_valid + verif_g_dim)) {\n"
+                 "    __CPROVER_assume(*(vpsc::Constraint *const *)slot == (vpsc::Constraint *)verif_pool + i);\n"
+                 "    // CBMC resolves a dereference through its points-to sets, which an assumption does not extend: store the value the slot is assumed to hold\n"
+                 "    *(vpsc::Constraint **)slot = (vpsc::Constraint *)verif_pool + i; } }\n"
+                 "namespace cola {\nint verif_flag_scan0()\n{ vpsc::Constraints *valid = (vpsc::Constraints *)verif_g_valid; vpsc::Dim verif_dim = (vpsc::Dim)verif_g_dim; vpsc::Dim& dim = verif_dim; "
+                 "bool subConstraintSatisfiable = verif_g_sat != 0;\n" + scan.text + "\n    return subConstraintSatisfiable ? 1 : 0;\n}\n}\n"
+                 'extern "C" int w_flag_scan0(void *valid, int dim, int sat, unsigned long K) { verif_g_valid = valid; verif_g_dim = dim; verif_g_sat = sat; return cola::verif_flag_scan0(); }\n')
+    VD = "((struct{void*d;unsigned long n;unsigned long cap;}__attribute__((packed))*)verif_g_valid)[verif_g_dim]"
+    KF = "((struct{void*l;void*r;double g;double lm;long ts;_Bool a;_Bool e;_Bool unsat;_Bool ns;void*cr;}__attribute__((packed))*)verif_pool)[verif_K_idx].unsat"
+    js.append(Job("makeFeasible_flag_scan_any_size", "U", spec, "h_flag_scan0", cxx=scan0_cxx, enforce="w_flag_scan0", defines=["JOB_flag_scan0"], slices=[mf, mf_while, scan],
+                  flags=["--sat-solver", "cadical"], backend="sat:cadical", replay=replay_c07,
+                  loops=loops_file([loop_contract("cola::verif_flag_scan0()", 0,
+                                                  ("i <= %s.n && (verif_K_idx < i ==> !%s) && (verif_K_idx >= i ==> ((%s != 0) == (verif_K_flag0 != 0))) && "
+                                                   "((verif_K_idx < i && verif_K_flag0) ==> !subConstraintSatisfiable) && (!verif_g_sat ==> !subConstraintSatisfiable)") % (VD, KF, KF),
+                                                  "i, subConstraintSatisfiable, __CPROVER_object_whole(verif_pool), __CPROVER_object_whole(%s.d)" % VD, "%s.n - i" % VD,
+                                                  {"i": "1::1::i", "subConstraintSatisfiable": "1::subConstraintSatisfiable"})]),
+                  domain="valid sets of up to 1000 constraints (a pool of distinct live objects), both dimensions, ghost constraint index K",
+                  expect=[r'w_flag_scan0\.postcondition', r'loop_invariant_base', r'loop_invariant_step', r'loop_decreases']))
     return js
 
 
@@ -376,7 +483,11 @@ ASSUMPTIONS = [
     "PARTIAL CLAIM: the end-to-end statement of C07 is NOT decided. Not under any obligation: that ConstrainedFDLayout::run()/makeFeasible() end in a projection "
     "(applyForcesAndConstraints takes a further descent step AFTER project(): coords = old - stepsize*(old - projected), stepsize in [0,1]; feasibility of the result needs "
     "convexity plus feasibility of the previous iterate), makeFeasible's priority/rollback logic, the 1e-4 tolerance after unscaling, rectangle sizes unchanged, absence of "
-    "NaN/inf, ConstrainedMajorizationLayout/GradientProjection, PageBoundaryConstraints and OrthogonalEdgeConstraint, cluster containment and non-overlap constraints (C08)",
+    "NaN/inf, GradientProjection::solve's descent loop (its last step is `result = previous + beta*(projected - previous)`, again a convex combination, not a projection; "
+    "only runSolver's copy-back after satisfy() and destroyVPSC's report loop are under contract), PageBoundaryConstraints and OrthogonalEdgeConstraint, cluster containment and non-overlap constraints (C08)",
+    "makeFeasible: only the scan between a solve attempt and the roll-back decision is under contract (a flag on ANY constraint of the valid set is cleared and vetoes the "
+    "alternative; bounded job anchored on the neighbouring statements + loop-contract job for any size, where 'element i of the valid set is object i of a pool of distinct "
+    "live constraints' is instantiated at each access through the stub vector's element hook); priorities, alternatives' order and the restore of positions are not",
     "virtual dispatch from setupVarsAndConstraints/setupExtraConstraints to the generate* members is not modelled (CBMC's C++ front end; the classes are checked one by one)",
     "variable ids are assumed non-negative (they are positions in the variable list: established for guide lines by the *_generateVariables jobs, for nodes by "
     "setupVarsAndConstraints' `new vpsc::Variable(i, coords[i])` which is not under contract)",
@@ -384,5 +495,6 @@ ASSUMPTIONS = [
 ]
 EXPLANATION = ("Contracts on the real libcola translation routines: each kind of compound constraint generates, per sub-constraint and only in its own dimension, exactly the VPSC "
                "constraint that states it, with the creator back-pointer that lets an unsatisfiable one be reported; project() hands back the solver's final positions read after "
-               "solve(); checkUnsatisfiable reports every flagged constraint with its maker. Together with C01 this decides the per-constraint half of C07 for ONE projection; "
+               "solve(); checkUnsatisfiable (and, on the majorization path, GradientProjection::runSolver / destroyVPSC) read positions back after the solver ran and report every "
+               "flagged constraint with its maker. Together with C01 this decides the per-constraint half of C07 for ONE projection; "
                "the descent loop around it is not decided.")
